@@ -170,6 +170,33 @@ def run(R):
                 out["fail"].append({"why": "CLI rename was refused but the tree changed", "rc": rc, "kind": kind,
                                     "tree": cli.tree_json(tree), "search": s, "replace": nn,
                                     "diff": repr(cli.diff_snap(before, after))[:800]})
+    # several entries of one directory that all map to the SAME new name (different renderings of the term, a one-word replacement,
+    # among them the device names Windows reserves): every file is still there afterwards, whatever the command decides
+    for j in range(8 if R.tier == "quick" else 120):
+        a, b = g.term_pair()
+        styles = g.r.sample(["Snake", "Kebab", "Camel", "Pascal", "ScreamingSnake", "Train", "Dot"], g.r.randint(2, 4))
+        word = ["aux", "con", "nul", "prn", "com1", "lpt1", b[0], "todo"][j % 8]
+        d = ["", "pkg/"][j % 2]
+        tree = ([{"p": "pkg", "k": "d", "m": 0o755}] if d else []) + [
+            {"p": d + gen.render(a, S) + ".txt", "k": "f", "c": f"payload {k} of {S}\n".encode(), "m": 0o644} for k, S in enumerate(styles)]
+        if j % 2:
+            styles = sorted(set(styles) | {"Snake", "Kebab"})
+            tree = ([{"p": "pkg", "k": "d", "m": 0o755}] if d else []) + [
+                {"p": d + gen.render(a, S) + ".txt", "k": "f", "c": f"payload {k} of {S}\n".encode(), "m": 0o644} for k, S in enumerate(styles)]
+        cmds = [["rename", gen.render(a, "Snake"), word], ["replace", "[-_.]".join(a), word]]
+        for cmd in cmds[: 2 if j % 2 else 1]:
+            with cli.Sandbox(tree) as sb:
+                before = sorted(v[2] for v in sb.snapshot().values() if v[0] == "f")
+                rc, o, e = sb.run(["--no-auto-init", "-y"] + cmd)
+                after_snap = sb.snapshot()
+                after = sorted(v[2] for v in after_snap.values() if v[0] == "f")
+                R.case(("many_to_one", tuple(cmd), tuple(styles), d), nontrivial=True)
+                out["kinds"]["many_to_one"] = out["kinds"].get("many_to_one", 0) + 1
+                missing = [h for h in before if before.count(h) > after.count(h)]
+                if missing:
+                    out["fail"].append({"why": f"`{' '.join(cmd)}` (exit {rc}) lost {len(set(missing))} of {len(before)} files: entries that map to the "
+                                               f"same new name were renamed onto one another; left: {sorted(after_snap)}", "rc": rc,
+                                        "tree": cli.tree_json(tree), "command": cmd, "stderr": e.decode("utf-8", "replace")[-300:]})
     # case-only renames probe the file system with a scratch file: a user's file of that name must survive
     for j in range(2 if R.tier == "quick" else 24):
         a, b = g.term_pair()
